@@ -81,6 +81,12 @@ func VerifQueuedEvictionBytes(c Cache) int64 {
 	return verifUnwrap(c).lru.queuedEvictionsSize.Load()
 }
 
+// VerifEvictionBatchQueued reports whether a batch of entries that left the
+// index is waiting for the remover goroutine (which has not picked it up yet).
+func VerifEvictionBatchQueued(c Cache) bool {
+	return len(verifUnwrap(c).lru.queuedEvictionsChan) > 0
+}
+
 // VerifEntryPath returns the path (relative to the cache dir) at which the
 // cache expects the file of the given entry.
 func VerifEntryPath(c Cache, e VerifEntry) string {
